@@ -830,8 +830,18 @@ func (s *TreeShapeListener) ExitTable(ctx *parser.TableContext) {
 			}
 		}
 		if len(pks) > 0 {
-			rel.PrimaryKey = &sysl.Type_Relation_Key{
-				AttrName: pks,
+			// A table may be declared in several blocks: keep the key columns of earlier blocks.
+			if rel.PrimaryKey == nil {
+				rel.PrimaryKey = &sysl.Type_Relation_Key{}
+			}
+			for _, pk := range pks {
+				known := false
+				for _, name := range rel.PrimaryKey.AttrName {
+					known = known || name == pk
+				}
+				if !known {
+					rel.PrimaryKey.AttrName = append(rel.PrimaryKey.AttrName, pk)
+				}
 			}
 		}
 	}
